@@ -199,18 +199,20 @@ func RunCheck(o CheckOpts) int {
 	// static checks
 	staticRes := g.RunStatic(o, spec)
 	// recorded weakenings of the deepcopy predicate are findings, not silent exceptions
-	usesDeepcopy := false
+	usesDeepcopy := map[string]bool{} // packages with a deepcopy postcondition among this property's functions
 	for _, k := range keys {
 		for _, en := range g.CS.Funcs[k].Ensures {
 			if strings.Contains(en.Text, "deepcopy(") {
-				usesDeepcopy = true
+				usesDeepcopy[g.CS.Funcs[k].Pkg] = true
 			}
 		}
 	}
-	if usesDeepcopy {
+	if len(usesDeepcopy) > 0 {
 		var sk []string
 		for k := range g.CS.Shared {
-			sk = append(sk, k)
+			if usesDeepcopy[g.CS.SharedPkg[k]] {
+				sk = append(sk, k)
+			}
 		}
 		sort.Strings(sk)
 		for _, k := range sk {
